@@ -66,7 +66,7 @@ func FileHandler(path string) (AuthenticationHandler, error) {
 			out = append(out, fileRecord{
 				UsernameHash: fingerprintString(records[idx][0]),
 				PasswordHash: records[idx][1],
-				MountPoint:   records[idx][3],
+				MountPoint:   records[idx][2],
 			})
 		}
 	}
